@@ -107,10 +107,10 @@ Qed.
 Lemma merge_starts rest : forall cur, StronglySorted le_start (cur :: rest) ->
   Forall (fun p => fst cur <= fst p) (merge cur rest).
 Proof.
-  induction rest as [|x rest IH]; intros cur Hs; cbn [merge]; [repeat constructor; lia|].
+  induction rest as [|x rest IH]; intros cur Hs; [rewrite merge_nil; repeat constructor; lia|].
   inversion Hs as [|? ? Hs' Hf]; subst. inversion Hf as [|? ? Hx Hf']; subst.
   inversion Hs' as [|? ? Hs'' Hfx]; subst. unfold le_start in Hx.
-  destruct (_ <=? _).
+  rewrite merge_cons. destruct (adjacent cur x).
   - apply (IH (fst cur, Z.max (snd cur) (snd x))). constructor; auto.
   - constructor; [lia|]. eapply Forall_impl; [|apply IH; auto]. cbn; intros; lia.
 Qed.
@@ -118,27 +118,27 @@ Qed.
 Definition gap (a b : Z * Z) := snd a + 1 < fst b.
 
 Lemma merge_gaps rest : forall cur,
-  StronglySorted le_start (cur :: rest) -> fst cur <= snd cur -> Forall okp rest ->
+  StronglySorted le_start (cur :: rest) -> minInt64 <= fst cur -> fst cur <= snd cur -> Forall okp rest ->
   StronglySorted gap (merge cur rest) /\ Forall (fun p => fst p <= snd p) (merge cur rest).
 Proof.
-  induction rest as [|x rest IH]; intros cur Hs Hc Hok; cbn [merge].
-  - split; repeat constructor; auto.
+  induction rest as [|x rest IH]; intros cur Hs Hlo Hc Hok.
+  - rewrite merge_nil. split; repeat constructor; auto.
   - inversion Hs as [|? ? Hs' Hf]; subst. inversion Hf as [|? ? Hx Hf']; subst.
     inversion Hs' as [|? ? Hs'' Hfx]; subst.
     inversion Hok as [|? ? [Hxv [Hxlo Hxhi]] Hok']; subst.
-    rewrite wrap64_id by (unfold int64, minInt64, maxInt64 in *; lia).
+    rewrite merge_cons, (adjacent_spec cur x Hlo Hc Hxhi).
     unfold le_start in Hx.
     destruct (Z.leb_spec (fst x - 1) (snd cur)).
     + apply IH; auto; [|cbn [fst snd]; lia].
       constructor; auto.
-    + destruct (IH x Hs' Hxv Hok') as [G V]. split; [|constructor; auto].
+    + destruct (IH x Hs' Hxlo Hxv Hok') as [G V]. split; [|constructor; auto].
       constructor; auto. eapply Forall_impl; [|apply merge_starts; exact Hs'].
       unfold gap; cbn; intros; lia.
 Qed.
 
 (* ---- coalesce_intervals *)
 Definition dom_ok (l : list iv) :=
-  forall i, In i l -> is_concrete i = true -> ks i <= ke i /\ minInt64 < ks i /\ ks i <= maxInt64.
+  forall i, In i l -> is_concrete i = true -> ks i <= ke i /\ minInt64 <= ks i /\ ks i <= maxInt64.
 
 Lemma is_concrete_se i : is_concrete i = true -> of_se (se i) = i.
 Proof. destruct i as [[s| |] [e| |]]; simpl; try discriminate. reflexivity. Qed.
@@ -185,7 +185,7 @@ Qed.
 
 Theorem coalesce_pointset_lemma l t : dom_ok l -> (covered_iv (coalesce_intervals l) t <-> covered_iv l t).
 Proof.
-  intros Hd. unfold coalesce_intervals.
+  intros Hd. unfold coalesce_intervals, coalesce_intervals_with. fold merge.
   destruct l as [|a [|b l']]; [reflexivity|reflexivity|]. remember (a :: b :: l') as l eqn:Hl. clear Hl.
   rewrite (covered_split l t).
   destruct (sort_by_start (map se (filter is_concrete l))) as [|c rest] eqn:E.
@@ -194,8 +194,8 @@ Proof.
     split; [auto|]. intros [(i & [] & _)|H]; auto.
   - destruct rest as [|d rest]; [rewrite covered_iv_app; reflexivity|].
     destruct (sort_by_start_spec (map se (filter is_concrete l))) as [S P]. rewrite E in S, P.
-    destruct (sorted_okp l _ _ Hd E) as [[Hcv _] Hok].
-    rewrite covered_iv_app, covered_map_of_se, (merge_cover _ _ _ S Hcv Hok).
+    destruct (sorted_okp l _ _ Hd E) as [[Hcv [Hclo _]] Hok].
+    rewrite covered_iv_app, covered_map_of_se, (merge_cover _ _ _ S Hclo Hcv Hok).
     rewrite <- (covered_map_se (filter is_concrete l) t).
     split; (intros [H|H]; [left|right; auto]).
     + exact (covered_perm _ _ t P H).
@@ -211,7 +211,7 @@ Theorem coalesce_separated_lemma l : dom_ok l ->
   forall l1 x l2 y l3, filter is_concrete (coalesce_intervals l) = l1 ++ x :: l2 ++ y :: l3 ->
   2 <= Z.of_nat (length l) -> ke x + 1 < ks y.
 Proof.
-  intros Hd l1 x l2 y l3 E Hlen. unfold coalesce_intervals in E.
+  intros Hd l1 x l2 y l3 E Hlen. unfold coalesce_intervals, coalesce_intervals_with in E. fold merge in E.
   destruct l as [|a [|b l']]; [simpl in Hlen; lia|simpl in Hlen; lia|]. clear Hlen. remember (a :: b :: l') as l eqn:Hl. clear Hl.
   pose proof (filter_conc_other l) as Hno.
   destruct (sort_by_start (map se (filter is_concrete l))) as [|c rest] eqn:Es.
@@ -224,8 +224,8 @@ Proof.
       apply (f_equal (@length iv)) in E. rewrite app_length in E. cbn [length] in E.
       rewrite app_length in E. cbn [length] in E. lia.
     + destruct (sort_by_start_spec (map se (filter is_concrete l))) as [S P]. rewrite Es in S.
-      destruct (sorted_okp l _ _ Hd Es) as [[Hcv _] Hok].
-      destruct (merge_gaps _ _ S Hcv Hok) as [G _].
+      destruct (sorted_okp l _ _ Hd Es) as [[Hcv [Hclo _]] Hok].
+      destruct (merge_gaps _ _ S Hclo Hcv Hok) as [G _].
       rewrite filter_app, Hno, app_nil_r in E.
       assert (Hall : forall m, filter is_concrete (map of_se m) = map of_se m).
       { induction m; simpl; auto. f_equal; auto. }
@@ -239,8 +239,21 @@ Proof.
       * eapply IH; eauto.
 Qed.
 
-(* N13: at MinInt64 the adjacency test wraps and two overlapping intervals
-   that both start at MinInt64 stay apart *)
+(* N13: before the fix the adjacency test wrapped at MinInt64 and two
+   overlapping intervals that both start at MinInt64 stayed apart *)
 Lemma coalesce_minint_refuted_lemma :
-  coalesce_intervals [(Ts minInt64, Ts 5); (Ts minInt64, Ts 9)] = [(Ts minInt64, Ts 5); (Ts minInt64, Ts 9)].
+  coalesce_intervals_prefix [(Ts minInt64, Ts 5); (Ts minInt64, Ts 9)] = [(Ts minInt64, Ts 5); (Ts minInt64, Ts 9)].
+Proof. vm_compute. reflexivity. Qed.
+
+(* the pre-fix loop agrees with the repaired one on every pair that starts after MinInt64 *)
+Lemma adjacent_prefix_agrees_lemma cur x : minInt64 <= fst cur -> fst cur <= snd cur ->
+  minInt64 < fst x -> fst x <= maxInt64 -> adjacent_prefix cur x = adjacent cur x.
+Proof.
+  intros Hlo Hv Hxlo Hxhi. rewrite (adjacent_spec cur x Hlo Hv Hxhi). unfold adjacent_prefix.
+  rewrite wrap64_id by (unfold int64, minInt64, maxInt64 in *; lia). reflexivity.
+Qed.
+
+(* after the fix the witness is merged *)
+Lemma coalesce_minint_merged_lemma :
+  coalesce_intervals [(Ts minInt64, Ts 5); (Ts minInt64, Ts 9)] = [(Ts minInt64, Ts 9)].
 Proof. vm_compute. reflexivity. Qed.
